@@ -9,6 +9,7 @@ import MitmVerif.Lemmas.C38_HostValid
 import MitmVerif.Lemmas.C38_Old
 import MitmVerif.Lemmas.C38_State
 import MitmVerif.Model.C38_Tuple
+import MitmVerif.Lemmas.C38_Bytes
 namespace MitmVerif.Props.C38
 open MitmVerif.C38 MitmVerif.Gen.C38
 
@@ -795,6 +796,60 @@ example :
     let d : Dict := [(.str (s "version"), .list [.int 1, .int 0, .int 0]), (.str (s "client_conn"), cc), (.str (s "server_conn"), sc)]
     ((((conv_100_200 d).bind conv_200_300).bind conv_300_4).bind (fun d' => dget d' (s "version"))).map enc = some (enc (.int 4)) := by
   decide +kernel
+
+
+/-! #### the oldest formats 0.11 … 0.16 (bytes keys) -/
+
+/-- **bytes_writes_next_version.** Each of the six oldest converters stamps `(0, minor + 1)` under the bytes key `version`. -/
+theorem bytes_writes_next_version (minor : Nat) (f : Dict → Option Dict) (d d' : Dict)
+    (hf : convBytes minor = some f) (h : f d = some d') :
+    bget d' (s "version") = some (.list [.int 0, .int (minor + 1)]) := by
+  unfold convBytes at hf
+  split at hf <;> cases hf
+  · simp only [conv_011_012, Option.pure_def, Option.some.injEq] at h; subst h; exact bget_bset_same _ _ _
+  · simp only [conv_012_013, Option.pure_def, Option.some.injEq] at h; subst h; exact bget_bset_same _ _ _
+  · unfold conv_013_014 at h
+    simp only [Option.bind_eq_bind, Option.bind_eq_some_iff, Option.pure_def, Option.some.injEq] at h
+    obtain ⟨_, _, _, _, _, _, rfl⟩ := h
+    exact bget_bset_same _ _ _
+  · simp only [conv_014_015, Option.pure_def, Option.some.injEq] at h; subst h; exact bget_bset_same _ _ _
+  · unfold conv_015_016 at h
+    simp only [Option.bind_eq_bind, Option.bind_eq_some_iff, Option.pure_def, Option.some.injEq] at h
+    obtain ⟨_, _, _, _, _, _, _, _, rfl⟩ := h
+    exact bget_bset_same _ _ _
+  · unfold conv_016_017 at h
+    simp only [Option.bind_eq_bind, Option.bind_eq_some_iff, Option.pure_def, Option.some.injEq] at h
+    obtain ⟨_, _, rfl⟩ := h
+    exact bget_bset_same _ _ _
+
+/-- **bytes_frame.** They touch nothing outside `version`, `request`, `response`, `server_conn`: the client connection,
+    `error`, `id`, `type`, `intercepted` are what the file held. -/
+theorem bytes_frame (minor : Nat) (f : Dict → Option Dict) (d d' : Dict) (m : Bytes)
+    (hf : convBytes minor = some f) (h : f d = some d') (hv : (s "version" == m) = false)
+    (h1 : (s "request" == m) = false) (h2 : (s "response" == m) = false) (h3 : (s "server_conn" == m) = false) :
+    bget d' m = bget d m := by
+  unfold convBytes at hf
+  split at hf <;> cases hf
+  · simp only [conv_011_012, Option.pure_def, Option.some.injEq] at h; subst h; exact bget_bset_ne _ _ _ _ hv
+  · simp only [conv_012_013, Option.pure_def, Option.some.injEq] at h; subst h; exact bget_bset_ne _ _ _ _ hv
+  · exact body_b13 d d' m h h1 h2 h3 hv
+  · simp only [conv_014_015, Option.pure_def, Option.some.injEq] at h; subst h; exact bget_bset_ne _ _ _ _ hv
+  · exact body_b15 d d' m h h1 h2 hv
+  · exact body_b16 d d' m h h3 hv
+
+/-- **http_version_text.** 0.13→0.14 writes the version pair `[1, 1]` as the bytes `HTTP/1.1`. -/
+example : dotJoinInts [.int 1, .int 1] = some (s "1.1") ∧ dotJoinInts [.int 2, .int 0] = some (s "2.0") := by decide +kernel
+
+-- non-vacuity: a 0.13 record runs through 0.13→0.14→0.15→0.16→0.17
+example :
+    let b (x : String) : Value := .bytes (s x)
+    let req : Value := .dict [(b "form_in", b "relative"), (b "httpversion", .list [.int 1, .int 1]), (b "form_out", b "relative")]
+    let resp : Value := .dict [(b "httpversion", .list [.int 1, .int 1]), (b "code", .int 200), (b "content", b "x"), (b "msg", b "OK")]
+    let d : Dict := [(b "version", .list [.int 0, .int 13]), (b "request", req), (b "response", resp),
+                     (b "server_conn", .dict [(b "state", .list [])])]
+    (((((conv_013_014 d).bind conv_014_015).bind conv_015_016).bind conv_016_017).bind
+      (fun d' => (bget d' (s "response")).bind asDict)).bind (fun r => bget r (s "reason")) |>.map enc
+      = some (enc (b "OK")) := by decide +kernel
 
 /-! #### the whole modelled chain 12 → 21 -/
 
